@@ -313,6 +313,54 @@ loop:
 	}
 	return x*1000 + y
 }''', ["pointers(0)", "pointers(5)"]),
+    ("discardedOps", '''func discardedOps(a, b int, x, y any) string {
+	out := ""
+	try := func(f func()) {
+		defer func() {
+			if r := recover(); r != nil {
+				out += fmt.Sprint("[", r, "]")
+			} else {
+				out += "[ok]"
+			}
+		}()
+		f()
+	}
+	try(func() { _ = a / b })
+	try(func() { _ = a % b })
+	try(func() { _ = 1 << b })
+	try(func() { _ = x == y })
+	try(func() {
+		var p *counter
+		_ = p.total + 1
+	})
+	return out
+}''', ["discardedOps(7, 0, 1, 2)", "discardedOps(7, -1, []int{1}, []int{1})", "discardedOps(7, 2, nil, nil)"]),
+    ("floatConstants", '''func floatConstants(x float64) (float64, float32, complex128) {
+	y := x * 3.14159265358979
+	var z float32 = 1.23456789
+	const big = 1e100
+	c := complex(x, 0.123456789012345) * (2.718281828459045 + 1.5i)
+	return y + 2.718281828459045 + big/1e99, z * float32(x), c
+}''', ["floatConstants(1.5)", "floatConstants(-0.001)"]),
+    ("selectRecvOk", '''func selectRecvOk(n int) string {
+	c := make(chan int, 1)
+	out := ""
+	for i := 0; i < n; i++ {
+		if i == 1 {
+			close(c)
+		}
+		if i == 0 {
+			c <- 7
+		}
+		select {
+		case v, ok := <-c:
+			out += fmt.Sprint(v, ok, ";")
+		default:
+			out += "d;"
+		}
+	}
+	return out
+}''', ["selectRecvOk(0)", "selectRecvOk(3)"]),
     ("whileWithState", '''func whileWithState(n uint) (steps int, peak uint) {
 	for n != 1 && steps < 200 {
 		if n%2 == 0 {
